@@ -101,7 +101,8 @@ var (
 	reLemma = regexp.MustCompile(`^lemma\s+(\w+)\s*\(([^)]*)\)\s*:\s*(.*)$`)
 	reAxiom = regexp.MustCompile(`^axiom\s+(\w+)\s*:\s*(.*)$`)
 	reGhost = regexp.MustCompile(`^ghost\s+var\s+(\w+)\s+(.*)$`)
-	reLoop  = regexp.MustCompile(`^loop\s+(\d+)\s+(invariant|decreases)\s+(.*)$`)
+	reLoop  = regexp.MustCompile(`^loop\s+(\d+|\*)\s+(invariant|decreases)\s+(.*)$`)
+	reFuncT = regexp.MustCompile(`^functype\s+(\w+)\s*\(`)
 	reTag   = regexp.MustCompile(`^\[(\w+)\]\s*(.*)$`)
 )
 
@@ -197,6 +198,16 @@ func (P *Program) loadContractFile(file string) error {
 			if _, dup := P.contracts[key]; dup {
 				return fmt.Errorf("%s:%d: duplicate contract for %s", file, line, key)
 			}
+			P.contracts[key] = cur
+			return nil
+		case strings.HasPrefix(text, "functype "):
+			m := reFuncT.FindStringSubmatch(text)
+			if m == nil {
+				return fmt.Errorf("%s:%d: bad functype header %q", file, line, text)
+			}
+			key := pkg + "." + m[1]
+			cur = &Contract{Key: key, Pkg: pkg, Header: text, File: file, Line: line, Loops: map[int]*LoopSpec{}, Iface: true, NoVerify: true}
+			curLemma = nil
 			P.contracts[key] = cur
 			return nil
 		case strings.HasPrefix(text, "interface "):
@@ -345,7 +356,7 @@ func (P *Program) loadContractFile(file string) error {
 			if m == nil {
 				return fmt.Errorf("%s:%d: bad loop clause %q", file, line, text)
 			}
-			n, _ := strconv.Atoi(m[1])
+			n, _ := strconv.Atoi(m[1]) // "*" -> 0: applies to every loop without clauses of its own
 			ls := cur.Loops[n]
 			if ls == nil {
 				ls = &LoopSpec{}
